@@ -130,6 +130,11 @@ class Geometry(ABC):
     def copy(self):
         pass
 
+    def __copy__(self, *args):
+        # the default `copy.copy` shares every array with this
+        # object so use the copy method of the geometry instead
+        return self.copy()
+
     @abc.abstractmethod
     def show(self):
         pass
